@@ -32,7 +32,8 @@ Families == {"v4", "v6", "mapped", "mappedlist"}   \* mappedlist: IPv4 peer, lis
 Malformed == {"none", "allow", "deny"}
 \* spelling of the malformed entry: out-of-range address, blank, blanks only, a host name, a prefix length out of range
 MalKinds == {"badip", "blank", "space", "hostname", "cidr_oob"}
-Authz == {"absent", "exact", "wrong", "lower", "twospace", "prefixonly", "notrail", "suffix"}
+\* truncated / onechar: "Bearer " followed by a proper prefix of the token (all but its last character / its first character)
+Authz == {"absent", "exact", "wrong", "lower", "twospace", "prefixonly", "notrail", "suffix", "truncated", "onechar"}
 Endpoints == {"health", "metrics", "backends", "add", "remove", "strategy"}
 Methods == {"GET", "POST", "DELETE"}
 
